@@ -31,8 +31,8 @@ Definition st_eqb (a b : St) : bool := st_num a =? st_num b.
    timer on zrc), fix_ncp = commit 488e192 (codes 8-11 are unknown codes to an NCP).  /repo HEAD has both:
    the correspondence check runs [Repaired] only. *)
 Record variant := mkVariant { fix_cells : bool; fix_ncp : bool }.
-Definition Repaired : variant := mkVariant true true.      (* both patches *)
-Definition Defective : variant := mkVariant false false.   (* fsm.go as it stands *)
+Definition Repaired : variant := mkVariant true true.      (* /repo HEAD *)
+Definition Defective : variant := mkVariant false false.   (* fsm.go before d6fc4b1 / 488e192 *)
 
 (* What the OptionHandler (and ParseOptions) make of a received Configure-Request:
    CMalformed = ParseOptions returned an error;
